@@ -1,8 +1,10 @@
 // C20: xtime.SleepContext honours d and the deadline; JitterTicker keeps its spacing; no tick after
 // Stop.
 //
-// Everything runs inside testing/synctest bubbles: time is virtual, so elapsed times and tick
-// timestamps are exact and every assertion is made with zero slack.
+// Nearly everything runs inside testing/synctest bubbles: time is virtual, so elapsed times and tick
+// timestamps are exact and every assertion is made with zero slack. One phase runs on the real clock
+// (see "real-time phase"): what depends on a timer callback being late cannot happen under virtual time;
+// its verdicts compare the timestamps carried by ticks and can only be true positives.
 //
 // Two independent judges look at every case:
 //   - monitors (source "monitor"): the clauses of the property text, checked on the real code against
@@ -22,6 +24,7 @@ import (
 	"math"
 	"math/rand"
 	"os"
+	"runtime"
 	"strings"
 	"sync"
 	"testing"
@@ -38,20 +41,40 @@ import (
 // SleepCase is one SleepContext call made at virtual instant 0. Negative Deadline / CancelAt mean
 // "none"; CancelAt == 0 is a context that is already cancelled when the call is made; DeadlineAgo > 0
 // is a context whose deadline passed that long before the call (Deadline is ignored then).
+//
+// DeadlineZero: the deadline is the zero time.Time (`context.WithDeadline(ctx, time.Time{})`, the customary
+// "already expired" context): it lies further back than a Duration can express, time.Until saturates at
+// MinInt64. LagDone: the context reports its deadline but its Done channel lags behind - it stays open
+// (Err() == nil) until CancelAt, for good if there is none. (A real deadline context closes Done a timer
+// latency after the deadline; a wrapper that keeps the deadline but detaches cancellation never does.)
 type SleepCase struct {
-	D           int64 `json:"d"`
-	Deadline    int64 `json:"deadline"`
-	CancelAt    int64 `json:"cancel_at"`
-	DeadlineAgo int64 `json:"deadline_ago,omitempty"`
+	D            int64 `json:"d"`
+	Deadline     int64 `json:"deadline"`
+	CancelAt     int64 `json:"cancel_at"`
+	DeadlineAgo  int64 `json:"deadline_ago,omitempty"`
+	DeadlineZero bool  `json:"deadline_zero,omitempty"`
+	LagDone      bool  `json:"lag_done,omitempty"`
 }
 
-// deadline returns the context's deadline relative to the instant of the call.
+// deadline returns the context's deadline relative to the instant of the call (what time.Until
+// reports then).
 func (c SleepCase) deadline() (int64, bool) {
+	if c.DeadlineZero {
+		return math.MinInt64, true
+	}
 	if c.DeadlineAgo > 0 {
 		return -c.DeadlineAgo, true
 	}
 	return c.Deadline, c.Deadline >= 0
 }
+
+// lagCtx reports a deadline without ever closing Done of its own accord.
+type lagCtx struct {
+	context.Context
+	dl time.Time
+}
+
+func (l lagCtx) Deadline() (time.Time, bool) { return l.dl, true }
 
 // TStep is one step of a ticker script.
 //
@@ -68,8 +91,9 @@ type TStep struct {
 }
 
 type Case struct {
-	Kind  string     `json:"kind"` // sleep | ticker
+	Kind  string     `json:"kind"` // sleep | ticker | ticker-real | stop-real | sleep-real
 	Sleep *SleepCase `json:"sleep,omitempty"`
+	Real  *RealCase  `json:"real,omitempty"`
 	Steps []TStep    `json:"steps,omitempty"`
 	Seed  int64      `json:"seed"` // math/rand seed used for this case
 	// NoModel: durations too large for the model's enumeration of rand values (monitors only)
@@ -106,12 +130,20 @@ func runSleep(t *testing.T, c SleepCase) sleepObs {
 		o.ctxAt = -1
 		quit := make(chan struct{})
 		if dl, ok := c.deadline(); ok {
-			var cf context.CancelFunc
-			ctx, cf = context.WithDeadline(ctx, start.Add(time.Duration(dl)))
-			cancels = append(cancels, cf)
-			o.ctxAt = dl
-			if dl < 0 {
-				o.ctxAt = 0 // Done is closed when the call is made
+			at := start.Add(time.Duration(dl))
+			if c.DeadlineZero {
+				at = time.Time{}
+			}
+			if c.LagDone {
+				ctx = lagCtx{ctx, at} // Done stays open
+			} else {
+				var cf context.CancelFunc
+				ctx, cf = context.WithDeadline(ctx, at)
+				cancels = append(cancels, cf)
+				o.ctxAt = dl
+				if dl < 0 {
+					o.ctxAt = 0 // Done is closed when the call is made
+				}
 			}
 		}
 		if c.CancelAt >= 0 {
@@ -179,14 +211,20 @@ func monitorSleep(c SleepCase, o sleepObs) *fail {
 		rel = "not-closer-than-d"
 	}
 	p := map[string]interface{}{"deadline": rel, "cancelled": c.CancelAt >= 0, "d_positive": c.D > 0, "d_zero": c.D == 0}
+	if c.LagDone {
+		p["done_lags"] = true
+	}
 	mk := func(kind, what string) *fail {
-		return &fail{kind, p, fmt.Sprintf("SleepContext(d=%s, deadline=%s, cancel at %s) returned %s after %s: %s",
-			dur(c.D), c.deadlineText(), durOrNone(c.CancelAt), o.res, dur(o.elapsed), what)}
+		lag := ""
+		if c.LagDone {
+			lag = ", Done not closed by the deadline"
+		}
+		return &fail{kind, p, fmt.Sprintf("SleepContext(d=%s, deadline=%s%s, cancel at %s) returned %s after %s: %s",
+			dur(c.D), c.deadlineText(), lag, durOrNone(c.CancelAt), o.res, dur(o.elapsed), what)}
 	}
 	if o.res == "panic" {
 		return mk("sleep-panic", "panicked")
 	}
-	preDone := o.ctxAt == 0
 	if c.D <= 0 {
 		// "returns nil ... at once when d <= 0": whatever the context looks like (none, live, deadline
 		// passed, already cancelled) - the text makes no exception
@@ -199,8 +237,14 @@ func monitorSleep(c SleepCase, o sleepObs) *fail {
 		return nil
 	}
 	tooSoon := hasDl && dl < c.D
+	// A call that has to wait for a d so large that start + d is beyond what the runtime's clock can
+	// express (the virtual clock starts in the year 2000, the clock ends in 2262) cannot be observed: the
+	// timer is clamped. Such calls are not generated; this guard keeps the shrinker from walking into them.
+	if !tooSoon && c.D > maxDur/2 && !(o.ctxAt >= 0 && o.ctxAt < c.D) {
+		return nil
+	}
 	// "returns nil only after at least d has elapsed"
-	if o.res == "nil" && o.elapsed < c.D {
+	if o.res == "nil" && o.elapsed < c.D && !tooSoon {
 		return mk("sleep-nil-before-d", "nil although less than d elapsed")
 	}
 	// "returns DeadlineTooSoonError immediately exactly when the context's deadline is closer than d"
@@ -208,14 +252,17 @@ func monitorSleep(c SleepCase, o sleepObs) *fail {
 		return mk("sleep-toosoon-but-deadline-not-closer", "DeadlineTooSoonError although the deadline is not closer than d")
 	}
 	if tooSoon {
-		// an already-ended context may also be reported as such (both clauses apply; left open)
-		if o.res == "toosoon" || (preDone && o.res == "ctxerr") {
-			if o.elapsed != 0 {
-				return mk("sleep-toosoon-not-immediate", "the deadline is closer than d: must fail immediately")
-			}
-			return nil
+		// "exactly when the context's deadline is closer than d" - the text makes no exception for a
+		// context that has already ended (its deadline passed, or it was cancelled as well): the answer is
+		// DeadlineTooSoonError, at once. (`sleep_deadline_too_soon_iff` proves exactly that. An earlier
+		// version accepted the context's error from an ended context; see notes/strengthening.md, fix4.)
+		if o.res != "toosoon" {
+			return mk("sleep-toosoon-missing", "the deadline is closer than d: expected DeadlineTooSoonError at once")
 		}
-		return mk("sleep-toosoon-missing", "the deadline is closer than d: expected DeadlineTooSoonError at once")
+		if o.elapsed != 0 {
+			return mk("sleep-toosoon-not-immediate", "the deadline is closer than d: must fail immediately")
+		}
+		return nil
 	}
 	// "returns the context's error if the context ends first"
 	if o.ctxAt >= 0 && o.ctxAt < c.D {
@@ -237,6 +284,8 @@ func (c SleepCase) deadlineText() string {
 	switch {
 	case !ok:
 		return "none"
+	case c.DeadlineZero:
+		return "time.Time{} (time.Until saturates at MinInt64)"
 	case dl < 0:
 		return dur(-dl) + " ago"
 	}
@@ -409,6 +458,279 @@ func runTicker(t *testing.T, steps []TStep, seed int64) tickerRun {
 }
 
 // ---------------------------------------------------------------------------------------------
+// real-time phase (outside synctest bubbles)
+//
+// Under virtual time a timer callback is never late, so behaviour that depends on lateness ("catching up"
+// after a late tick) cannot show in any bubble. The phase below runs a JitterTicker on the real clock and
+// provokes lateness on purpose: GOMAXPROCS(1), and after receiving a tick the receiving goroutine spins
+// for several periods without yielding, so the only P cannot run the timer callback that falls due
+// meanwhile. The verdict can only be a true positive: a tick carries the time.Now() of its send
+// (`case t.c <- time.Now()`), the next timer is armed after that with `next >= d - jitter`, timers never
+// fire early and time.Now is monotone - so on a correct implementation the timestamps carried by two
+// consecutive ticks are never less than d - jitter apart, however loaded or starved the machine is
+// (lateness and dropped ticks - the channel holds one tick, a send that finds it full is skipped - only
+// widen the gaps). The clock bounds the number of rounds, never a verdict.
+
+// RealCase is one real-time configuration. Seen is filled in when the configuration failed.
+type RealCase struct {
+	D      int64     `json:"d"`               // period, ns
+	Jitter int64     `json:"jitter"`          // ns
+	Spin   int64     `json:"spin,omitempty"`  // busy-spin after the first tick of a round, ns
+	Ticks  int       `json:"ticks,omitempty"` // ticks received after the spin, per round
+	Gmp    int       `json:"gmp,omitempty"`   // GOMAXPROCS during the run (0 = leave alone)
+	Rounds int       `json:"rounds"`          // rounds of a replay
+	Seen   *RealSeen `json:"seen,omitempty"`
+}
+
+// RealSeen: the evidence. T1 / T2 are the timestamps carried by the two ticks, in ns since the
+// configuration's ticker was created.
+type RealSeen struct {
+	Round int   `json:"round"`
+	T1    int64 `json:"t1"`
+	T2    int64 `json:"t2"`
+	Gap   int64 `json:"gap"`
+}
+
+type realStats struct {
+	rounds, ticks, lateRounds, noTick int
+}
+
+// spin busy-waits without yielding (no channel operation, no sleep, no function that parks).
+func spin(d time.Duration) {
+	t0 := time.Now()
+	for time.Since(t0) < d {
+	}
+}
+
+// runTickerReal: rounds of "receive a tick, spin, receive Ticks more"; every pair of consecutive ticks
+// is judged by the timestamps they carry.
+func runTickerReal(rc RealCase, maxRounds int, until time.Time) (*fail, *RealSeen, realStats) {
+	var st realStats
+	var badSeen *RealSeen
+	if rc.Gmp > 0 {
+		old := runtime.GOMAXPROCS(rc.Gmp)
+		defer runtime.GOMAXPROCS(old)
+	}
+	d, j := time.Duration(rc.D), time.Duration(rc.Jitter)
+	var tk *xtime.JitterTicker
+	if p, pv := vlib.Try(func() { tk = xtime.NewJitterTicker(d, j) }); p {
+		return &fail{"ticker-panic-new", map[string]interface{}{"jitter_zero": rc.Jitter == 0, "phase": "real-time"},
+			fmt.Sprintf("NewJitterTicker(%s, %s) panicked: %v", d, j, pv)}, nil, st
+	}
+	defer vlib.Try(func() { tk.Stop() })
+	start := time.Now()
+	guard := time.NewTimer(time.Hour)
+	defer guard.Stop()
+	var last time.Time
+	have := false
+	var bad *fail
+	// recv returns false when no tick arrives for 200 periods + 2s: the ticker is dead (not a verdict of
+	// this phase - the virtual-time scenarios judge that), the phase ends
+	recv := func(round int) bool {
+		guard.Reset(200*d + 2*time.Second)
+		select {
+		case v := <-tk.C:
+			st.ticks++
+			if have {
+				gap := v.Sub(last)
+				if gap < d-j && bad == nil {
+					seen := &RealSeen{Round: round, T1: int64(last.Sub(start)), T2: int64(v.Sub(start)), Gap: int64(gap)}
+					bad = &fail{"ticker-spacing-real-time", map[string]interface{}{"jitter_zero": rc.Jitter == 0},
+						fmt.Sprintf("real clock, JitterTicker(%s, %s), GOMAXPROCS %d, receiver busy for %s after a tick: in round %d two consecutive ticks carry the timestamps +%s and +%s (since the ticker was created), %s apart - less than d - jitter = %s",
+							d, j, runtime.GOMAXPROCS(-1), time.Duration(rc.Spin), round, time.Duration(seen.T1), time.Duration(seen.T2), gap, d-j)}
+					badSeen = seen
+				}
+				if gap >= 2*(d+j) {
+					st.lateRounds++ // a callback ran at least a full period late
+				}
+			}
+			last, have = v, true
+			return true
+		case <-guard.C:
+			st.noTick++
+			return false
+		}
+	}
+	for round := 0; round < maxRounds && bad == nil && (round < 2 || time.Now().Before(until)); round++ {
+		st.rounds++
+		if !recv(round) {
+			break
+		}
+		if rc.Spin > 0 {
+			spin(time.Duration(rc.Spin))
+		}
+		for i := 0; i < rc.Ticks && bad == nil; i++ {
+			if !recv(round) {
+				return bad, badSeen, st
+			}
+		}
+	}
+	return bad, badSeen, st
+}
+
+// runStopReal: "no tick is sent after Stop returns" on the real clock with real threads: Stop is called
+// about when the timer falls due (spinning up to the due instant of a jitter-free ticker), the channel is
+// drained at once - a tick found there was sent before Stop returned -, and whatever arrives in the
+// following periods was sent after Stop had returned: a true positive whatever the scheduling.
+func runStopReal(rc RealCase, maxRounds int, until time.Time) (*fail, realStats) {
+	var st realStats
+	d, j := time.Duration(rc.D), time.Duration(rc.Jitter)
+	guard := time.NewTimer(time.Hour)
+	defer guard.Stop()
+	for round := 0; round < maxRounds && (round < 2 || time.Now().Before(until)); round++ {
+		st.rounds++
+		var tk *xtime.JitterTicker
+		if p, _ := vlib.Try(func() { tk = xtime.NewJitterTicker(d, j) }); p {
+			return nil, st
+		}
+		guard.Reset(200*d + 2*time.Second)
+		var v time.Time
+		select {
+		case v = <-tk.C:
+			st.ticks++
+		case <-guard.C:
+			st.noTick++
+			vlib.Try(func() { tk.Stop() })
+			return nil, st
+		}
+		// aim at the instant the next timer falls due, a little earlier or later from round to round
+		aim := v.Add(d - j + time.Duration(round%7-3)*d/40)
+		for time.Now().Before(aim) {
+		}
+		if p, pv := vlib.Try(func() { tk.Stop() }); p {
+			return &fail{"ticker-panic-stop", map[string]interface{}{"phase": "real-time"}, fmt.Sprintf("Stop panicked: %v", pv)}, st
+		}
+		select {
+		case <-tk.C: // sent before Stop returned
+		default:
+		}
+		time.Sleep(3 * (d + j))
+		select {
+		case late := <-tk.C:
+			return &fail{"ticker-tick-after-stop-real-time", map[string]interface{}{"jitter_zero": rc.Jitter == 0},
+				fmt.Sprintf("real clock, JitterTicker(%s, %s): in round %d a tick (timestamp %s after the previous one) arrived after Stop had returned and the channel had been drained",
+					d, j, round, late.Sub(v))}, st
+		default:
+		}
+	}
+	return nil, st
+}
+
+// runSleepReal: the clauses of SleepContext that hold on the real clock whatever the load: nil only after
+// at least d (the timer never fires early), DeadlineTooSoonError for a deadline that is certainly closer
+// than d (already passed, the zero time, or an hour away against d = MaxInt64).
+func runSleepReal() *fail {
+	mk := func(kind, what string) *fail {
+		return &fail{kind, map[string]interface{}{}, "real clock: " + what}
+	}
+	for _, d := range []time.Duration{50 * time.Microsecond, time.Millisecond, 3 * time.Millisecond} {
+		t0 := time.Now()
+		var err error
+		if p, pv := vlib.Try(func() { err = xtime.SleepContext(context.Background(), d) }); p {
+			return mk("sleep-panic", fmt.Sprintf("SleepContext(background, %s) panicked: %v", d, pv))
+		}
+		if el := time.Since(t0); err == nil && el < d {
+			return mk("sleep-nil-before-d-real-time", fmt.Sprintf("SleepContext(background, %s) returned nil after %s", d, el))
+		}
+	}
+	type shape struct {
+		name string
+		at   func() time.Time
+		d    time.Duration
+	}
+	for _, sh := range []shape{
+		{"a deadline one minute ago, d = 1s", func() time.Time { return time.Now().Add(-time.Minute) }, time.Second},
+		{"a deadline one minute ago, d = MaxInt64", func() time.Time { return time.Now().Add(-time.Minute) }, math.MaxInt64},
+		{"the deadline time.Time{}, d = 1ns", func() time.Time { return time.Time{} }, 1},
+		{"the deadline time.Time{}, d = 1h", func() time.Time { return time.Time{} }, time.Hour},
+		{"a deadline in one hour, d = MaxInt64", func() time.Time { return time.Now().Add(time.Hour) }, math.MaxInt64},
+		{"a deadline in one hour, d = 2h", func() time.Time { return time.Now().Add(time.Hour) }, 2 * time.Hour},
+	} {
+		ctx, cf := context.WithDeadline(context.Background(), sh.at())
+		var err error
+		p, pv := vlib.Try(func() { err = xtime.SleepContext(ctx, sh.d) })
+		cf()
+		if p {
+			return mk("sleep-panic", fmt.Sprintf("SleepContext with %s panicked: %v", sh.name, pv))
+		}
+		var ts xtime.DeadlineTooSoonError
+		if !errors.As(err, &ts) {
+			return mk("sleep-toosoon-missing-real-time", fmt.Sprintf("SleepContext with %s returned %v: the deadline is closer than d, expected DeadlineTooSoonError", sh.name, err))
+		}
+	}
+	return nil
+}
+
+// realConfigs: (d, jitter, spin): the spin covers two to four periods and stays below the 10ms after
+// which the runtime preempts a running goroutine.
+func realConfigs() []RealCase {
+	return []RealCase{
+		{D: 3 * ms, Jitter: 1 * ms, Spin: 9 * ms, Ticks: 3, Gmp: 1, Rounds: 200},
+		{D: 2 * ms, Jitter: 0, Spin: 7 * ms, Ticks: 2, Gmp: 1, Rounds: 200},
+		{D: 4 * ms, Jitter: 3 * ms, Spin: 9 * ms, Ticks: 3, Gmp: 1, Rounds: 200},
+		{D: 1 * ms, Jitter: ms / 2, Spin: 5 * ms, Ticks: 4, Gmp: 1, Rounds: 200},
+	}
+}
+
+// realPhase runs the real-time scenarios for about `budget` of wall time.
+func (x *runner) realPhase(budget time.Duration) {
+	res := x.res
+	if f := runSleepReal(); f != nil {
+		res.Count("monitor-failure." + f.kind)
+		res.Fail(vlib.Failure{Source: "monitor", Kind: f.kind, Params: f.params, What: f.what, Case: Case{Kind: "sleep-real"}})
+	}
+	res.Count("case.sleep-real")
+	cfgs := realConfigs()
+	slice := budget * 3 / 4 / time.Duration(len(cfgs))
+	for _, rc := range cfgs {
+		f, seen, st := runTickerReal(rc, 1<<30, time.Now().Add(slice))
+		res.CountN("real-ticker-rounds", st.rounds)
+		res.CountN("real-ticker-ticks", st.ticks)
+		res.CountN("real-ticker-callbacks-a-period-late", st.lateRounds)
+		res.CountN("real-ticker-no-tick", st.noTick)
+		c := Case{Kind: "ticker-real", Real: &rc, NoModel: true}
+		res.Case(fmt.Sprintf("ticker-real %d %d %d", rc.D, rc.Jitter, rc.Spin), st.lateRounds > 0, nil)
+		if f == nil {
+			continue
+		}
+		res.Count("monitor-failure." + f.kind)
+		// shrink: the same configuration reading a single tick after the spin
+		small := rc
+		small.Ticks = 1
+		if f2, seen2, _ := runTickerReal(small, 60, time.Now().Add(2*time.Second)); f2 != nil && f2.kind == f.kind {
+			rc, f, seen = small, f2, seen2
+		}
+		rc.Seen = seen
+		c.Real = &rc
+		res.Fail(vlib.Failure{Source: "monitor", Kind: f.kind, Params: f.params, What: f.what, Case: c})
+		break
+	}
+	rc := RealCase{D: ms / 2, Jitter: 0, Rounds: 2000}
+	f, st := runStopReal(rc, 1<<30, time.Now().Add(budget/4))
+	res.CountN("real-stop-rounds", st.rounds)
+	res.Case("stop-real", st.rounds > 0, nil)
+	if f != nil {
+		res.Count("monitor-failure." + f.kind)
+		res.Fail(vlib.Failure{Source: "monitor", Kind: f.kind, Params: f.params, What: f.what, Case: Case{Kind: "stop-real", Real: &rc, NoModel: true}})
+	}
+}
+
+// replayReal re-runs a real-time case.
+func replayReal(c Case) *fail {
+	switch c.Kind {
+	case "sleep-real":
+		return runSleepReal()
+	case "stop-real":
+		f, _ := runStopReal(*c.Real, c.Real.Rounds, time.Now().Add(20*time.Second))
+		return f
+	}
+	rc := *c.Real
+	rc.Seen = nil
+	f, _, _ := runTickerReal(rc, c.Real.Rounds, time.Now().Add(20*time.Second))
+	return f
+}
+
+// ---------------------------------------------------------------------------------------------
 // generators
 
 const (
@@ -421,6 +743,9 @@ func genSleep(r *vlib.Rand) SleepCase {
 	ds := []int64{math.MinInt64, -hour, -7, -1, 0, 0, 1, 2, 3, 5, 10, 1000, ms, 20 * ms, sec, hour}
 	d := ds[r.Intn(len(ds))]
 	c := SleepCase{D: d, Deadline: -1, CancelAt: -1}
+	if r.Chance(1, 6) {
+		return genSleepExtreme(r)
+	}
 	base := d
 	if base <= 0 {
 		base = 5
@@ -469,6 +794,60 @@ func genSleep(r *vlib.Rand) SleepCase {
 	return c
 }
 
+// extreme magnitudes. A call that really sleeps for d close to MaxInt64 cannot be judged (start + d is
+// beyond what the runtime's clock can express), so the huge d are combined only with contexts under which
+// SleepContext has to return at once or when the context ends: a deadline closer than d (passed by 1ns ..
+// MaxInt64, the zero time, now, live in an hour), or a cancellation.
+const maxDur = int64(math.MaxInt64)
+
+var extremeD = []int64{1, 2, 1000, hour, maxDur / 2, maxDur - 1, maxDur}
+
+func extremeShapes(d int64) []namedSleep {
+	out := []namedSleep{}
+	add := func(name string, c SleepCase) {
+		c.D = d
+		out = append(out, namedSleep{name, c})
+	}
+	for _, ago := range []int64{1, 60 * sec, maxDur / 2, maxDur - 1, maxDur} {
+		n := "deadline-passed-" + dur(ago)
+		add(n, SleepCase{Deadline: -1, CancelAt: -1, DeadlineAgo: ago})
+		add(n+"-cancelled", SleepCase{Deadline: -1, CancelAt: 0, DeadlineAgo: ago})
+		add(n+"-done-lags", SleepCase{Deadline: -1, CancelAt: -1, DeadlineAgo: ago, LagDone: true})
+	}
+	add("deadline-zero-time", SleepCase{Deadline: -1, CancelAt: -1, DeadlineZero: true})
+	add("deadline-zero-time-cancelled", SleepCase{Deadline: -1, CancelAt: 0, DeadlineZero: true})
+	add("deadline-zero-time-done-lags", SleepCase{Deadline: -1, CancelAt: -1, DeadlineZero: true, LagDone: true})
+	add("deadline-now", SleepCase{Deadline: 0, CancelAt: -1})
+	add("deadline-now-done-lags", SleepCase{Deadline: 0, CancelAt: -1, LagDone: true})
+	add("cancelled", SleepCase{Deadline: -1, CancelAt: 0})
+	add("cancelled-later", SleepCase{Deadline: -1, CancelAt: 5})
+	if d > hour {
+		add("live-deadline-1h", SleepCase{Deadline: hour, CancelAt: -1})
+		add("live-deadline-1h-cancelled", SleepCase{Deadline: hour, CancelAt: 0})
+		add("live-deadline-1h-done-lags", SleepCase{Deadline: hour, CancelAt: -1, LagDone: true})
+		add("live-deadline-just-inside", SleepCase{Deadline: d - 1, CancelAt: -1, LagDone: true})
+	} else {
+		// a deadline as far away as a Duration can say: never closer than d
+		add("live-deadline-far-future", SleepCase{Deadline: maxDur, CancelAt: -1})
+		add("live-deadline-far-future-cancelled-later", SleepCase{Deadline: maxDur, CancelAt: d / 2})
+		add("done-lags-deadline-not-closer", SleepCase{Deadline: d, CancelAt: -1, LagDone: true})
+	}
+	return out
+}
+
+func genSleepExtreme(r *vlib.Rand) SleepCase {
+	d := extremeD[r.Intn(len(extremeD))]
+	if r.Chance(1, 4) {
+		d = maxDur - int64(r.Intn(1000))
+	}
+	sh := extremeShapes(d)
+	c := sh[r.Intn(len(sh))].c
+	if c.DeadlineAgo > 1000 && r.Chance(1, 3) {
+		c.DeadlineAgo -= int64(r.Intn(1000))
+	}
+	return c
+}
+
 // nonPositiveShapes: the context shapes crossed with d <= 0 (D is filled in by the caller).
 type namedSleep struct {
 	name string
@@ -477,6 +856,10 @@ type namedSleep struct {
 
 func nonPositiveShapes() []namedSleep {
 	return []namedSleep{
+		{"deadline-zero-time", SleepCase{Deadline: -1, CancelAt: -1, DeadlineZero: true}},
+		{"deadline-passed-max", SleepCase{Deadline: -1, CancelAt: -1, DeadlineAgo: math.MaxInt64}},
+		{"deadline-passed-done-lags", SleepCase{Deadline: -1, CancelAt: -1, DeadlineAgo: 1, LagDone: true}},
+		{"live-far-future-deadline", SleepCase{Deadline: math.MaxInt64, CancelAt: -1}},
 		{"none", SleepCase{Deadline: -1, CancelAt: -1}},
 		{"live-far-deadline", SleepCase{Deadline: hour, CancelAt: -1}},
 		{"live-near-deadline", SleepCase{Deadline: 1, CancelAt: -1}},
@@ -788,7 +1171,13 @@ func (x *runner) shrinkSleep(c Case, kind string) Case {
 		}
 	}
 	try(func(s *SleepCase) { s.CancelAt = -1 })
-	try(func(s *SleepCase) { s.Deadline, s.DeadlineAgo = -1, 0 })
+	try(func(s *SleepCase) { s.Deadline, s.DeadlineAgo, s.DeadlineZero, s.LagDone = -1, 0, false, false })
+	try(func(s *SleepCase) { s.LagDone = false })
+	try(func(s *SleepCase) {
+		if s.DeadlineZero {
+			s.DeadlineZero, s.DeadlineAgo = false, 1
+		}
+	})
 	try(func(s *SleepCase) {
 		if s.CancelAt > 0 {
 			s.CancelAt = 0
@@ -804,7 +1193,7 @@ func (x *runner) shrinkSleep(c Case, kind string) Case {
 			s.Deadline = 0
 		}
 	})
-	for _, d := range []int64{0, -1, 1, 2, 3} {
+	for _, d := range []int64{0, -1, 1, 2, 3, 1000, ms, sec, hour} {
 		d := d
 		if (c.Sleep.D < 0 && d >= c.Sleep.D && d <= 0) || (c.Sleep.D > 0 && d > 0 && d < c.Sleep.D) {
 			before := c.Sleep.D
@@ -888,6 +1277,15 @@ func TestVerif(t *testing.T) {
 			t.Fatalf("cannot load replay: %v", err)
 		}
 		x := &runner{t: t, env: env, res: vlib.NewResult("C20", "")}
+		if c.Real != nil || c.Kind == "sleep-real" {
+			fmt.Printf("replay %s (real clock)\n", c)
+			if f := replayReal(c); f != nil {
+				fmt.Printf("  FAILS %s: %s\n", f.kind, f.what)
+				os.Exit(1)
+			}
+			fmt.Println("  no clause violated")
+			return
+		}
 		bad := false
 		for i := 0; i < 20 && !bad; i++ {
 			f, lines, _ := x.evalCase(c)
@@ -903,7 +1301,8 @@ func TestVerif(t *testing.T) {
 		}
 		os.Exit(1)
 	}
-	res := vlib.NewResult("C20", "sleep: d > 0 (the call can block and the context matters); ticker: at least two ticks were observed or a Reset/Stop raced with a firing timer")
+	res := vlib.NewResult("C20", "sleep: d > 0 (the call can block and the context matters); ticker: at least two ticks were observed or a Reset/Stop raced with a firing timer; "+
+		"real-time configurations (real clock, GOMAXPROCS 1, receiver busy-spinning for several periods after a tick): a timer callback ran at least a full period late")
 	x := &runner{t: t, env: env, res: res, wd: &watchdog{}}
 	go x.wd.watch(res, env.Out)
 	defer func() {
@@ -960,6 +1359,20 @@ func TestVerif(t *testing.T) {
 			}
 		}
 	}
+	// extreme magnitudes: d up to MaxInt64 x deadlines passed by up to MaxInt64 / the zero time (time.Until
+	// saturates) / as far in the future as a Duration can say, with and without cancellation, with a Done
+	// channel that lags behind the deadline (durations are int64: the comparisons must not wrap around)
+	for rep := 0; rep < 3; rep++ {
+		for _, d := range extremeD {
+			for _, sh := range extremeShapes(d) {
+				cc := sh.c
+				x.do(Case{Kind: "sleep", Sleep: &cc}, "sleep-extreme")
+				if rep == 0 {
+					res.Count("sleep-extreme-ctx-" + sh.name)
+				}
+			}
+		}
+	}
 	// (d, jitter) grid incl. jitter = 0 and jitter = d-1, Stop / Reset at every offset after a
 	// quiescent point (thorough: every offset; quick: a sample)
 	maxD := int64(4)
@@ -982,6 +1395,16 @@ func TestVerif(t *testing.T) {
 		res.Exhaustive = true
 		res.Extra["exhaustive_scope"] = "ticker grid: every (d, jitter) with 1 <= d <= 6, 0 <= jitter < d; Stop / Reset / nothing at every offset 1..d+jitter after a quiescent point (the rand values are sampled, not enumerated, on the implementation side; the model side enumerates them)"
 	}
+	// real-time phase (real clock, provoked lateness): about a fifth of the budget, 1.2s in quick
+	x.flushModel()
+	realBudget := time.Duration(env.BudgetMs) * time.Millisecond / 5
+	if realBudget > 8*time.Second {
+		realBudget = 8 * time.Second
+	}
+	if x.wd != nil {
+		x.wd.leave()
+	}
+	x.realPhase(realBudget)
 	deadline := env.Deadline()
 	n := 0
 	for time.Now().Before(deadline) {
